@@ -152,36 +152,14 @@ def menu(ctx: Ctx, rng: random.Random) -> list[dict]:
     # two concatenations can be the very same text (FR ...AE vs AE, MK ...NO vs NO): a memo keyed by the
     # joined text would hand one computation the other's result
     import c06
-    names8 = ["account_id", "account_type", "account_code", "account_holder_id", "currency_code",
-              "bank_code", "branch_code", "national_checksum_digits"]
-    allrows = {gen.cc_of(r): r for r in ctx.table(env0) if gen.row_classes(r) is not None}
-    cand = []
-    for x, rx in sorted(allrows.items()):
-        if x not in c06.NAT or not rx["haspos"]:
-            continue
-        a, z = rx["pos"][names8.index("national_checksum_digits")]
-        cx = rx["cls"]
-        if z != len(cx) or z - a != 2 or a < 4 or not all(k in (97, 99) for k in cx[a - 2:a]):
-            continue
-        for y, ry in sorted(allrows.items()):
-            cy = ry["cls"]
-            if len(cy) == a - 2 and all(k == 110 for k in cy) and all(k in (110, 99) for k in cx[:a - 2]):
-                cand.append((x, y, a))
-    bodies, meta2 = [], []
-    for x, y, a in cand[:: max(1, len(cand) // 4)][:4]:
-        by = "".join(rng.choice("0123456789") for _ in range(a - 2))
-        bodies.append({"cc": cps(x), "b": cps(by + y + "00")})
-        meta2.append((x, y, by))
-    for (x, y, by), fx in zip(meta2, c06.nat_gen(ctx, bodies, "c15join") if bodies else []):
-        if not fx["ok"]:
-            continue
-        bx = "".join(chr(c) for c in fx["b"])
+    joined = c06.joined_collisions(ctx, ctx.table(env0), rng, "c15join")
+    for x, ibx, y, by in joined:
         FAMILIES.append(list(range(len(m), len(m) + 4)))
-        m += [{"op": "iban.new", "t": cps(x + gen.check_digits(x, bx) + bx), "vb": True},
+        m += [{"op": "iban.new", "t": cps(ibx), "vb": True},
               {"op": "iban.from_bban", "cc": cps(y), "bban": cps(by), "ai": False, "vb": False},
               {"op": "iban.new", "t": cps(y + gen.check_digits(y, by) + by), "vb": False},
-              {"op": "iban.generate", "cc": cps(x), "bank": cps(bx[:3]), "branch": [], "acct": cps("1")}]
-    ctx.coverage["joined_text_collision_pairs"] = [f"{x}/{y}" for x, y, _ in meta2]
+              {"op": "iban.generate", "cc": cps(x), "bank": cps(ibx[4:7]), "branch": [], "acct": cps("1")}]
+    ctx.coverage["joined_text_collision_pairs"] = [f"{x}/{y}" for x, _, y, _ in joined]
     # texts that differ only at a BBAN position no component covers (filler), and for a country without
     # positions: a memo keyed by the components would confuse a valid IBAN with its corruption
     for row in ctx.table(env0):
